@@ -22,6 +22,10 @@ CLAIMS = {
          "not under contract: HStore.Set gate (goes through checkAndSet), route table decoding (config.Server.Decode), NewHStore's choice of buckets to open, upper-level listing, directory naming (string formatting)"),
  "C16": ("fnv1a (both copies), value hash, key-hash composition, CRC-32 table (256 ground obligations) and table step lemma proved for all inputs",
          "assumed + bounded differential: murmur3 library, the C CRC loop (crc32.write)"),
+ "C03": ("the protocol of the GC pass GCMgr.gc, step by step, for every bucket state, range and record sequence: no tree slot changes its existence, version or value hash (the pass only re-points slots; holds at every return including a cancelled pass); keep rule (a record is kept iff the slot of its key hash points at exactly its position, or it is a tombstone unknown to the tree in a pass not starting at file 0); move (the record appended is the one just scanned, it lands at the destination's write head and the slot is re-pointed at exactly that position); in-place rewriting never lets the write head pass the read position; a rewritten file is truncated only after it was scanned to its end and a file is removed only if it is not the destination; no chunk is left in rewriting state",
+         "protocol level, NOT an end-to-end theorem over file contents: an inductive proof over a record view of the files (which record lives at which position) was written and is beyond the solvers (DESIGN.md §3 C03); the step from the verified protocol to 'every key reads the same' is an argument in DESIGN.md. Assumed: chunk operations (AppendRecordGC, endGCWriting, Clear, GetStreamReader), tree view (HTree.get/set), hint manager calls, scan-end ghost state set by DataStreamReader.Next, no collisions, no concurrent writes, reliable I/O, data files never larger than DataFileMax. Not covered: restart after GC (resurrection through rebuilt indexes), the choice of the destination file, hint merging"),
+ "C18": ("same contract as C03 (GCMgr.gc): the keep rule decides exactly which records reach the destination (only the current record of a key or a retained tombstone), each kept record is written once at the write head, a fully scanned rewritten file is cut at the write head (endGCWriting is called for every destination, so every chunk ends idle), a source that is not the destination is removed",
+         "protocol level (see C03); not covered: byte-for-byte identity of the untouched prefix of an append-only destination (the writer is opened in append mode: assumed in GetStreamWriter), 'a second pass releases nothing' (needs the file-level view), colliding keys"),
  "C17": ("GC range resolution (start/end clipping, head chunk excluded, non-empty ends, age limit against a ghost clock), admission: refused/pretend change nothing and spawn nothing, accepted => exactly one spawn and the bucket registered before return; CancelGC frame",
          "assumed: lock semantics (sequential view), getFirstRecTs file I/O, time as a non-decreasing ghost clock. Not under contract: the body of GCMgr.gc (which files the pass rewrites), the HTTP handler that supplies the arguments"),
 }
@@ -34,9 +38,7 @@ NA = {
 PENDING = "contract chain not completed: the top-level obligations of this property are not under contract (DESIGN.md §0 and §3 say what exists and what is missing)"
 NA.update({
  "C02": "not decided: restart/recovery (Bucket.open, hint replay, tree dump/load, directory listing) is not under contract; only the pieces shared with C09/C14 (record scanner, hint codec) are verified — contract chain not completed (DESIGN.md §3 C02)",
- "C03": "not decided: GCMgr.gc (the keep/drop decision and relocation step) is not under contract; only admission/range resolution (C17) and the leaf/collision building blocks are verified — contract chain not completed (DESIGN.md §3 C03)",
  "C11": "not decided: the protocol layer (memcache.Request.Read/Process, ServerConn.ServeOnce) is not under contract; the engine's panic/recover paths and string-level reasoning were not reached — contract chain not completed (DESIGN.md §3 C11)",
- "C18": "not decided: same gap as C03 (GCMgr.gc not under contract) — contract chain not completed (DESIGN.md §3 C18)",
 })
 
 props = [json.loads(l) for l in open('/verif/properties.jsonl')]
